@@ -77,7 +77,7 @@ func tickerScenario(c *vh.Ctx) {
 		}
 		pre = w.dump()
 	}
-	deadline := time.Now().Add(3 * time.Second)
+	deadline := time.Now().Add(20 * time.Second)
 	var v *view
 	for {
 		v = w.dump()
